@@ -171,6 +171,19 @@ CHECKS = {
              "of the new float weight.",
         note="The upstream gradient is applied to out.dequantize() when activations are quantized. Gradient tolerances "
              "observed on the unchanged tree stay below 0.11 of the bound."),
+    "C14": dict(
+        technique="runtime monitor over an exhaustively enumerated configuration space: accept-or-ValueError classifier on "
+                  "the real entry points, accepted results re-judged with the C01/C02/C03/C06 oracles for exactly the "
+                  "requested configuration, module construction and forward for every in_features",
+        level="exploration", ref="4/C14",
+        text="The full cross product qtype x axis {None,-2..2} x group size x optimizer family x 13 small shapes (rank 1-4) "
+             "for quantize_weight, qtype x axis x seven scale layouts for SymmetricQuantizer / quantize_activation, qtype x "
+             "axis x group size for AffineQuantizer, every in_features 1..2048 (1..8192 thorough) for QLinear and a Conv2d "
+             "kernel/channel/group grid are executed; every outcome must be ValueError or a tensor honouring the request; "
+             "listed unsupported configurations must raise and plainly valid ones must be accepted; automatic group sizes "
+             "must divide the per-output element count and the module must run and match its float twin.",
+        note="The symmetric quantizer is in scope for 8-bit qtypes only (the statement says so; the repository's tests use "
+             "it with qint2/qint4). Axis aliases (ndim-1, -ndim) may be honoured or rejected."),
 }
 
 PLANNED = {}
